@@ -1091,8 +1091,8 @@ EXTRACTOR_MODULE = {"gen_complement": "Gen.Complement", "gen_dna2int": "Gen.Dna2
                     "gen_limits": "Gen.Limits", "gen_tbcodes": "Gen.TbCodes", "gen_occ": "Gen.Occ", "gen_saiswidth": "Gen.SaisWidth"}
 # gensa: the suffix-array construction (C03) — dialect module tools/rs2lean_gensa.py; Thm/C03.lean imports RbV.Thm.GenSrcLcp (…)
 TRANSLATOR_MODULES.append("rs2lean_gensa")
-GEN_SRC.update({n: gen_src(n) for n in ("SrcLcp", "SrcTransform", "SrcPosTypes", "SrcSaisBuckets", "SrcSaisCalcPos")})
-EXTRACTORS["C03"] = EXTRACTORS["C03"] + [GEN_SRC["SrcAlphabet"]] + [GEN_SRC[n] for n in ("SrcLcp", "SrcTransform", "SrcPosTypes", "SrcSaisBuckets", "SrcSaisCalcPos")]
+GEN_SRC.update({n: gen_src(n) for n in ("SrcLcp", "SrcTransform", "SrcPosTypes", "SrcSaisBuckets", "SrcSaisCalcPos", "SrcSaisLms")})
+EXTRACTORS["C03"] = EXTRACTORS["C03"] + [GEN_SRC["SrcAlphabet"]] + [GEN_SRC[n] for n in ("SrcLcp", "SrcTransform", "SrcPosTypes", "SrcSaisBuckets", "SrcSaisCalcPos", "SrcSaisLms")]
 SOFT_TRANSFORM = soft_modules(["RbV.Thm.GenSrcTransformModel"], "the mirror model `Sais.transformText` no longer gives the numbers of "
                                 "`transform_text` (the property-level theorem `transform_text_source_eq_model`, `Transform.Ok`, is "
                                 "checked separately)")
